@@ -1,6 +1,7 @@
 package main
 
 import (
+	"runtime"
 	"encoding/json"
 	"flag"
 	"fmt"
@@ -329,6 +330,19 @@ func cmdCheck(args []string) int {
 		o.timeout = 90
 		if o.tier == "thorough" {
 			o.timeout = 240
+		}
+	}
+	// under heavy machine load solver wall time is not solver effort: stretch the budget (up to 4x) so that a
+	// loaded machine does not turn a 10 s proof into a timeout
+	if b, err := os.ReadFile("/proc/loadavg"); err == nil {
+		var l1 float64
+		fmt.Sscanf(string(b), "%f", &l1)
+		if n := float64(runtime.NumCPU()); n > 0 && l1 > n {
+			f := l1 / n
+			if f > 4 {
+				f = 4
+			}
+			o.timeout = int(float64(o.timeout) * f)
 		}
 	}
 	return runCheck(&o)
